@@ -2726,6 +2726,39 @@ pub fn verif_parse_arguments(
     }
 }
 
+/// The inputs archive the real `RustInputsPackager::write_inputs` produces for a command line:
+/// the real `parse_arguments` decides crate types, externs, staticlibs and link paths (combined as
+/// `generate_hash_key` / `into_dist_packagers` do); `source_files` stands for the dep-info scan.
+/// `Ok(None)`: the command line is not a cacheable compile.
+#[cfg(all(sccache_verif, feature = "dist-client"))]
+pub fn verif_write_inputs(
+    arguments: &[OsString],
+    cwd: &Path,
+    source_files: Vec<PathBuf>,
+    env_vars: Vec<(OsString, OsString)>,
+) -> Result<Option<Vec<u8>>> {
+    let p = match parse_arguments(arguments, cwd) {
+        CompilerArguments::Ok(p) => p,
+        _ => return Ok(None),
+    };
+    let inputs = source_files
+        .into_iter()
+        .chain(p.externs.iter().map(|e| cwd.join(e)))
+        .chain(p.staticlibs.iter().map(|s| cwd.join(s)))
+        .collect();
+    let packager = Box::new(RustInputsPackager {
+        env_vars,
+        crate_link_paths: p.crate_link_paths,
+        crate_types: p.crate_types,
+        inputs,
+        path_transformer: dist::PathTransformer::new(),
+        rlib_dep_reader: None,
+    });
+    let mut out = vec![];
+    pkg::InputsPackager::write_inputs(packager, &mut out)?;
+    Ok(Some(out))
+}
+
 #[cfg(sccache_verif)]
 impl Rust {
     /// A `Rust` compiler description built from given values instead of by running rustc.
